@@ -490,8 +490,11 @@ def run_obligation(ob, scratch, keep_out=False):
                                 "; ".join(sorted({u.get("property", "") for u in unwind}))[:300])
             return rec
         rec["verdict"] = "holds"
-        # witness twin (started concurrently with the main query, joined here)
+        # witness twin (started concurrently with the main query, joined here; the main query's memory
+        # reservation is given back first, otherwise twins waiting for the gate would deadlock with mains waiting for twins)
         if ob.witness:
+            GATE.release(got)
+            got = 0
             twin_thread.join()
             tw = twin_box
             rec["solver_s"] += tw.get("secs", 0)
@@ -516,7 +519,8 @@ def run_obligation(ob, scratch, keep_out=False):
             rec["notes"].append("no witness twin: " + (ob.nowitness_reason or "n/a"))
         return rec
     finally:
-        GATE.release(got)
+        if got:
+            GATE.release(got)
         if ob.witness and twin_thread.is_alive():
             twin_thread.join()
         if not keep_out:
